@@ -29,6 +29,10 @@ CHECKS = [
      'technique': 'deterministic simulation: seeded evaluation histories over shared Selectors/tokens/documents/variable values with interleaved and abandoned generators, failing evaluations, clock and timezone changes; clean-room differential forked from the current process + input snapshots; scoping programs vs reference interpreter',
      'text': 'Histories of select / iter_select / token.evaluate over shared Selectors, tokens, documents (ElementTree, lxml, prebuilt node trees) and caller-owned mutable values. After every operation the result must equal a clean-room evaluation (fresh parse, fresh context, fresh copies of the inputs, forked from the current process), select must equal iter_select, and structural snapshots of all documents, variable values and namespace maps must be unchanged. A second arm checks lexical scoping of for/let/some/every/inline-function parameters against a reference interpreter.',
      'note': 'Trusts the canonical result form (nodes by document index / path) and the structural snapshots; contexts are never reused because the property does not promise that.'},
+    {'id': 'C03', 'level': 'fault_enumeration', 'design_ref': 'DESIGN.md section 2, C03',
+     'technique': 'deterministic simulation: seeded parse-call histories on pooled parser instances with asynchronous crash points, I/O / locale / recursion-limit fault injection over stub fs/net/locale seams, step-budget hang and lock deadlock verdicts',
+     'text': 'Histories of parse / parse+evaluate calls on one parser instance with failures at arbitrary points (syntax errors from mutated, random and deep sources; an injected asynchronous exception at the k-th line event). After every operation the used instance, a fresh instance and a pristine-process reference must agree on a probe set. Every exception leaving the API that is not an ElementPathError is a violation, as is a step-budget overrun (HANG) or a blocked lock (DEADLOCK). Fault arms: per-resource faults of a virtual filesystem/network under fn:json-doc / fn:unparsed-text*, injected setlocale failures under collation functions, reduced recursion limits.',
+     'note': 'The for-every-input-string clause is input fuzzing riding on the histories. Step budgets count line events inside elementpath only. Injected crashes are deferred out of finally bodies/__exit__.'},
 ]
 
 NOT_APPLICABLE = [
